@@ -541,6 +541,14 @@ func NewOpLib() *OpLib {
 		h := w.Height()
 		p.Txs = one("lp1", &mctypes.MsgAddExternalIncentive{Sender: w.A("lp1").Addr.String(), RewardDenom: "uatom", PoolId: 1, FromBlock: h + 2, ToBlock: h + 4, AmountPerBlock: I(1000)})
 	})
+	l.Add("ext_incentives_two_new_denoms_lp1", "ext_incentive", 0, func(w *World, p *BlockPlan) {
+		// two external incentives with two reward denoms, both starting in the very block that carries
+		// them (pool 2: neither denom was a reward denom of that pool before)
+		h := w.Height() + 1
+		a := w.A("lp1").Addr.String()
+		p.Txs = one("lp1", &mctypes.MsgAddExternalIncentive{Sender: a, RewardDenom: "uatom", PoolId: 2, FromBlock: h, ToBlock: h + 3, AmountPerBlock: I(700)},
+			&mctypes.MsgAddExternalIncentive{Sender: a, RewardDenom: "uelys", PoolId: 2, FromBlock: h, ToBlock: h + 3, AmountPerBlock: I(900)})
+	})
 	l.Add("commit_eden_lp1", "commit", 0, func(w *World, p *BlockPlan) {
 		cm := w.App.CommitmentKeeper.GetCommitments(w.RCtx(), w.A("lp1").Addr)
 		amt := cm.GetClaimedForDenom("ueden").QuoRaw(2)
